@@ -13,6 +13,8 @@ Every replay
 `reproduced: true` means: the violation of the property WAS observed on the
 tree as it is now.  Violations are detected by their observable effect only.
 """
+import sys
+sys.dont_write_bytecode = True      # nothing may be written under /verif
 import contextlib
 import json
 import os
@@ -21,7 +23,6 @@ import shutil
 import signal
 import sqlite3
 import subprocess
-import sys
 import tempfile
 import time
 import traceback
@@ -139,9 +140,8 @@ def chdir(path):
 
 @contextlib.contextmanager
 def quiet_stdout():
-    """Sends everything the conductor code prints to stderr's file descriptor
-    is too noisy; send it to /dev/null instead (both the Python-level streams
-    and fd 1/2 are left alone for children: children get their own pipes)."""
+    """Discards what the conductor code prints through sys.stdout / sys.stderr while
+    it is driven in-process (the last stdout line must be the JSON verdict)."""
     old_out, old_err = sys.stdout, sys.stderr
     with open(os.devnull, "w", encoding="utf-8") as devnull:
         sys.stdout = devnull
